@@ -586,6 +586,74 @@ def boolop_by_evaluation(repo, fi, is_and):
     return True, ''
 
 
+def first_hit_by_evaluation(repo, fi, kind):
+    """switch / selectCase / coalesce applied abstractly to 0..3 lazy
+    arguments whose values are given: the arguments are evaluated in order,
+    each at most once, none after the first hit; switch evaluates exactly
+    the hit's destination; the result is what the documentation says.
+    (None, why) when the body is outside the evaluator's fragment."""
+    import itertools
+    from sa import absint
+    va = fi.node.args.vararg.arg
+    if kind == 'coalesce':
+        values = (None, False, 0, 'value')
+        hit = lambda v: v is not None
+    else:
+        values = (True, False, 0, 'x', None)
+        hit = bool
+    for k in range(0, 4):
+        for vals in itertools.product(values, repeat=k):
+            trace = []
+            D = [absint.Sym('value-of-destination-%d' % i)
+                 for i in range(k)]
+
+            def oracle(callee, args, kwargs):
+                if callee.startswith('thunk-'):
+                    i = int(callee.split('-')[-1])
+                    trace.append(callee)
+                    if callee.startswith('thunk-destination-'):
+                        return (D[i],)
+                    return (vals[i],)
+                return None
+            if kind == 'switch':
+                args = tuple(absint.Obj(
+                    'mapping', source=absint.Sym('thunk-source-%d' % i),
+                    destination=absint.Sym('thunk-destination-%d' % i))
+                    for i in range(k))
+            else:
+                args = tuple(absint.Sym('thunk-source-%d' % i)
+                             for i in range(k))
+            it = absint.Interp(repo, fi.module, oracle)
+            try:
+                out = it.run(fi.node, dict(enumerate(args)))
+            except absint.Unsupported as e:
+                return None, str(e)
+            first = next((i for i, v in enumerate(vals) if hit(v)), None)
+            upto = k if first is None else first + 1
+            want_trace = ['thunk-source-%d' % i for i in range(upto)]
+            if kind == 'switch' and first is not None:
+                want_trace.append('thunk-destination-%d' % first)
+                want = D[first]
+            elif kind == 'switch':
+                want = None
+            elif kind == 'select_case':
+                want = k if first is None else first
+            else:
+                want = None if first is None else vals[first]
+            if trace != want_trace:
+                return False, 'with argument values %r the lazy arguments ' \
+                    'are evaluated as %s, expected %s' % (
+                        list(vals), trace, want_trace)
+            got = out[1] if out[0] == 'return' else out
+            same = got is want if isinstance(
+                want, (absint.Sym, bool, type(None))) else (
+                got == want and type(got) is type(want))
+            if not same:
+                return False, 'with argument values %r the result is %r, ' \
+                    'expected %r' % (list(vals), got, want)
+    return True, ''
+
+
 def check_r11d(repo, rep, uni):
     reg = uni.reg
     bo = repo.module('yaql.standard_library.boolean')
@@ -620,6 +688,11 @@ def check_r11d(repo, rep, uni):
                      for g in x.generators)]
         n += 1
         site = fi.key + '/first-hit'
+        ok, why = first_hit_by_evaluation(repo, fi, q)
+        if ok is not None:
+            rep.ob('R11d', site, ok, '%s: %s' % (q, why) if not ok else
+                   'first hit decides (%s)' % q, loc=br.loc(fi.node))
+            continue
         if comps:
             rep.ob('R11d', site, False,
                    '%s evaluates its lazy arguments in a sweep (%s) before '
@@ -1090,11 +1163,32 @@ def check_no_retry_of_evaluation(repo, rep):
                     out.append(c)        # context(name, engine, ...)(...)
                 elif isinstance(f, ast.Name) and f.id == 'self':
                     out.append(c)
+                elif isinstance(f, ast.Name) and f.id in wrapped:
+                    out.append(c)        # func(*args, **kwargs) in a wrapper
         return out
+    # decorators of the node methods: the function they are given is the
+    # evaluation they wrap
+    wrapped = set()
     for fi in ex.functions.values():
-        if fi.cls is None or fi.name not in ('__call__', 'evaluate'):
+        if fi.cls is not None and fi.name in ('__call__', 'evaluate') or \
+                fi.cls is not None and any(
+                    isinstance(c.func, ast.Attribute) and c.func.attr ==
+                    '__call__' for c in model.calls_in(fi.node)):
+            for d in fi.node.decorator_list:
+                dn = ex.functions.get(model.norm(d))
+                if dn is not None and dn.params():
+                    wrapped.add(dn.params()[0])
+    for fi in ex.functions.values():
+        top = fi
+        while top.parent_func is not None:
+            top = top.parent_func
+        if not (fi.cls is not None and fi.name in ('__call__', 'evaluate')
+                or any(model.norm(d) == top.name
+                       for g in ex.functions.values()
+                       for d in g.node.decorator_list)):
             continue
-        for t in [x for x in ast.walk(fi.node) if isinstance(x, ast.Try)]:
+        for t in [x for x in model.walk_shallow(fi.node)
+                  if isinstance(x, ast.Try)]:
             first = dispatches(t.body)
             if not first:
                 continue
